@@ -265,6 +265,18 @@ class Expander:
                 raise AnchorLost('%s: local rewrite /%s/ no longer matches' % (label, rx))
             self.local_rewrites.append({'fn': label, 'regex': rx, 'replacement': rep, 'count': n})
 
+        # rule E3b: `stub-block: <regex>` - the `{...}` block that follows the match is replaced by a call to
+        # vx_unproved_branch() (ensures false): that branch is ASSUMED, listed as unproved in the evidence
+        for ln in sections.get('stub-block', []):
+            rx = ln.strip()
+            m = re.search(rx, body_text)
+            if not m:
+                raise AnchorLost('%s: stub-block /%s/ no longer matches' % (label, rx))
+            tmp = Source('<body>', body_text)
+            bo_ = body_text.index('{', m.end() - 1) if body_text[m.end() - 1] != '{' else m.end() - 1
+            bc_ = tmp.match_close(bo_)
+            body_text = body_text[:bo_] + '{ vx_unproved_branch() }' + body_text[bc_ + 1:]
+            self.local_rewrites.append({'fn': label, 'regex': rx, 'replacement': '<block stubbed: unproved branch>', 'count': 1})
         # loop invariants
         loop_secs = {int(k.split()[1]): v for k, v in sections.items() if k.startswith('loop ')}
         if loop_secs:
@@ -402,7 +414,7 @@ class Expander:
                         if not m:
                             raise SystemExit('bad directive line: ' + l2)
                         key = m.group(1)
-                        if key in ('replace', 'opt-replace'):
+                        if key in ('replace', 'opt-replace', 'stub-block'):
                             sections.setdefault(key, []).append(m.group(2))
                             cur = None
                         else:
